@@ -19,7 +19,9 @@ HARNESS = os.path.join(VERIF, "harness")
 BIN = os.path.join(HARNESS, "bin")
 WORK = os.path.join(VERIF, ".work")
 REPLAYS = os.path.join(VERIF, "replays")
-EVIDENCE = os.path.join(VERIF, "evidence")
+# VERIF_EVIDENCE_DIR: tools that run a check against a deliberately changed tree (try_seed)
+# send the evidence of that run elsewhere, so that evidence/ always describes /repo as it is
+EVIDENCE = os.environ.get("VERIF_EVIDENCE_DIR") or os.path.join(VERIF, "evidence")
 DRIVER = os.path.join(LEAN, ".lake", "build", "bin", "driver")
 ALLOWED_AXIOMS = {"propext", "Classical.choice", "Quot.sound"}
 FORBIDDEN = re.compile(r"\bsorry\b|\badmit\b|^axiom\s|native_decide|bv_decide|implemented_by|\bunsafe\s|maxHeartbeats\s+0")
